@@ -117,6 +117,8 @@ def brle_logical_not(brle):
     rank 1 int array of binary run length encoded data corresponding to
     element-wise not of the input.
     """
+    if len(brle) == 0:
+        return brle
     if brle[0] or brle[-1]:
         return np.pad(brle, [1, 1], mode="constant")
     else:
@@ -199,6 +201,8 @@ def dense_to_brle(dense_data, dtype=np.int64):
     if len(dense_data.shape) != 1:
         raise ValueError("`dense_data` must be rank 1.")
     n = len(dense_data)
+    if n == 0:
+        return np.zeros((0,), dtype=dtype)
     starts = np.r_[0, np.flatnonzero(dense_data[1:] != dense_data[:-1]) + 1]
     lengths = np.diff(np.r_[starts, n])
     lengths = split_long_brle_lengths(lengths, dtype=dtype)
@@ -256,6 +260,8 @@ def rle_to_dense(rle_data, dtype=np.int64):
 def dense_to_rle(dense_data, dtype=np.int64):
     """Get run length encoding of the provided dense data."""
     n = len(dense_data)
+    if n == 0:
+        return np.zeros((0,), dtype=dtype)
     starts = np.r_[0, np.flatnonzero(dense_data[1:] != dense_data[:-1]) + 1]
     lengths = np.diff(np.r_[starts, n])
     values = dense_data[starts]
